@@ -67,6 +67,18 @@ func c05Cases(seed int64, tier string) []core.Case {
 	for i, cfg := range c05ParamGrid(gen.New(0xC05C05), nGrid) {
 		cs = append(cs, core.MkCase(fmt.Sprintf("create-%d", i), "create", r.Int63(), ext4Case{Cfg: cfg, Mode: "create-only"}))
 	}
+	// default parameters over a ladder of group counts, around the multiples of the number of group descriptors a
+	// block holds (16 with 1 KiB blocks and 64-byte descriptors, 32 with 32-byte ones)
+	ladder := []int64{8, 16, 120, 128, 136, 248, 256, 264}
+	if tier == "thorough" {
+		ladder = append(ladder, 384, 392, 504, 512, 520, 1024)
+	}
+	for _, mib := range ladder {
+		cs = append(cs, core.MkCase(fmt.Sprintf("create-groups-%d", mib/8), "create", r.Int63(), ext4Case{Cfg: Ext4Cfg{Size: mib << 20}, Mode: "create-only"}))
+		if mib >= 120 && mib <= 264 {
+			cs = append(cs, core.MkCase(fmt.Sprintf("create-groups-%d-no64bit-csum", mib/8), "create", r.Int63(), ext4Case{Cfg: Ext4Cfg{Size: mib << 20, On: []string{"metadata_csum"}}, Mode: "create-only"}))
+		}
+	}
 	cfgs := ext4Configs()
 	for i := 0; i < nHist; i++ {
 		cfg := cfgs[i%len(cfgs)]
